@@ -74,6 +74,7 @@ PROBES = [
     # one validator object shared by two modules whose functions have the same signature text
     docs.obj(id='p', method='users.create', params=[{'name': 'ann'}]), docs.obj(id='p', method='orders.create', params=[{'sku': 5}]),
     docs.obj(id='p', method='orders.create', params=[{'name': 'ann'}]),
+    docs.obj(id='p', method='pd_d_int'), docs.obj(id='p', method='pd_d_bool'), docs.obj(id='p', method='pd_d_float', params=[]),
     # a long-lived error object raised again, mappings with non-string keys
     docs.obj(id='p', method='stale', params=[{'n': 9}]), docs.obj(id='p', method='keyed', params=['mixed']),
 ]
